@@ -261,8 +261,8 @@ def run_real(kind, entries, data, pos, K):
     state.pop("quant_matrix", None)
     f = io.BytesIO(bytes(bytearray(data)))
     dio.init_io(state, f)
-    if pos:
-        dio.read_nbits(state, pos)
+    for _ in range(pos):
+        dio.read_bit(state)
     vp = None
     try:
         if kind == 0:
@@ -466,6 +466,110 @@ def mutate_bits(rng, data):
 
 
 # ------------------------------------------------------------------------------------------------
+# synthesised headers: every field drawn independently (all branches of the syntax, valid and invalid values)
+# ------------------------------------------------------------------------------------------------
+def synth_sequence_header(rng):
+    b = []
+    u = lambda v: b.extend(exp_golomb(v))
+    flag = lambda p=0.3: (b.append(1) or True) if rng.random() < p else (b.append(0) or False)
+    pick = lambda good, bad, p=0.06: rng.choice(bad) if rng.random() < p else rng.choice(good)
+    major = pick([1, 2, 3, 3], [0, 4], 0.03)
+    u(major)
+    u(pick([0], [1], 0.02))
+    u(pick([0] if (major == 1 and rng.random() < 0.9) else [0, 3], [1, 2, 4], 0.03))
+    u(pick([0] * 30 + [1, 2, 3, 4, 5, 6, 7, 64, 65, 66], [8, 63, 67], 0.03))
+    u(pick(list(range(23)), [23, 40], 0.04))
+    dims = None
+    if flag(0.45):
+        dims = (pick([1, 1, 2, 3, 4, 8, 16, 720, 1920], [0], 0.08), pick([1, 1, 2, 3, 4, 8, 16, 576, 1080], [0], 0.08))
+        u(dims[0])
+        u(dims[1])
+    if flag():
+        u(pick([0, 1, 2], [3, 7]))
+    if flag():
+        u(pick([0, 1], [2, 5]))
+    if flag():
+        i = pick([0] + list(range(1, 17)), [17, 30])
+        u(i)
+        if i == 0:
+            u(pick([1, 24, 25, 30000], [0], 0.1))
+            u(pick([1, 1001], [0], 0.1))
+    if flag():
+        i = pick([0, 1, 2, 3, 4, 5, 6], [7, 9])
+        u(i)
+        if i == 0:
+            u(pick([1, 4, 16], [0], 0.1))
+            u(pick([1, 3, 9], [0], 0.1))
+    if dims is not None and rng.random() < 0.8:
+        # a clean area inside the custom frame (the base format's clean area would not fit a tiny frame)
+        b.append(1)
+        cw, ch = rng.randint(0, dims[0]), rng.randint(0, dims[1])
+        u(cw)
+        u(ch)
+        u(rng.randint(0, dims[0] - cw) if rng.random() < 0.9 else dims[0])
+        u(rng.randint(0, dims[1] - ch) if rng.random() < 0.9 else dims[1])
+    elif flag():
+        for _ in range(4):
+            u(rng.choice([0, 0, 1, 2, 4, 8, 16, 640, 1920, 4000]))
+    if flag():
+        i = pick([0, 1, 2, 3, 4, 5, 6, 7, 8], [9, 12])
+        u(i)
+        if i == 0:
+            u(rng.choice([0, 16, 64]))
+            u(pick([1, 219, 255, 1023], [0], 0.1))
+            u(rng.choice([0, 128, 512]))
+            u(pick([1, 224, 255, 1023], [0], 0.1))
+    if flag(0.4):
+        i = pick([0, 0, 0, 1, 2, 3, 4, 5, 6, 7], [8, 11])
+        u(i)
+        if i == 0:
+            if flag(0.6):
+                u(pick([0, 1, 2, 3, 4], [5, 8]))
+            if flag(0.6):
+                u(pick([0, 1, 2, 3, 4], [5, 8]))
+            if flag(0.6):
+                u(pick([0, 1, 2, 3, 4, 5], [6, 8]))
+    u(pick([0, 1], [2, 3]))
+    if rng.random() < 0.05:
+        del b[rng.randrange(len(b)):]
+    return bytes_of(b)
+
+
+def synth_transform_parameters(rng, major, hq):
+    b = []
+    u = lambda v: b.extend(exp_golomb(v))
+    flag = lambda p=0.3: (b.append(1) or True) if rng.random() < p else (b.append(0) or False)
+    pick = lambda good, bad, p=0.06: rng.choice(bad) if rng.random() < p else rng.choice(good)
+    u(pick([0, 1, 2, 3, 4, 5, 6], [7, 9]))
+    d = pick([0, 1, 1, 2, 2, 3, 4], [5, 9], 0.04)
+    u(d)
+    dh = 0
+    if major >= 3:
+        if flag():
+            u(pick([0, 1, 2, 3, 4, 5, 6], [7, 9]))
+        if flag():
+            dh = pick([0, 1, 2, 3], [5], 0.04)
+            u(dh)
+    u(pick([1, 1, 2, 3, 4, 8], [0], 0.06))
+    u(pick([1, 1, 2, 3, 4], [0], 0.06))
+    if hq:
+        u(rng.choice([0, 0, 1, 2, 7]))
+        u(pick([1, 1, 2, 4], [0], 0.08))
+    else:
+        n = rng.choice([1, 2, 7, 64, 100])
+        u(n)
+        u(pick([1, 2, 3, 7], [0, n + 1], 0.12))
+    if flag(0.45):
+        count = (1 + dh + 3 * d)
+        if rng.random() < 0.1:
+            count = max(0, count - rng.choice([1, 2]))
+        for _ in range(count):
+            u(rng.choice([0, 0, 1, 2, 3, 8, 127, 128, 300]))
+    b += [rng.randrange(2) for _ in range(rng.choice([0, 3, 16]))]
+    return bytes_of(b)
+
+
+# ------------------------------------------------------------------------------------------------
 # seeds: data units of conformant streams from the real encoder
 # ------------------------------------------------------------------------------------------------
 def split_units(data):
@@ -603,7 +707,16 @@ def gen_cases(ctx, K, n_target):
         payload = rng.choice(hdr_payloads)
         before = len(cases)
         r = rng.random()
-        if r < 0.6:
+        if rng.random() < 0.4:
+            sh = synth_sequence_header(rng)
+            if rng.random() < 0.8:
+                add(0, {}, sh, 0, "seqhdr-synth")
+            else:
+                ent = after_sequence_header(sh, K)
+                if ent is not None:
+                    sh2 = sh if rng.random() < 0.5 else mutate_bits(rng, sh)[0]
+                    add(0, ent, sh2, 0, "seqhdr-synth-repeat")
+        elif r < 0.6:
             variants(0, {}, payload, 0, "seqhdr-first")
         elif r < 0.85:
             # a repeated sequence header: state as left by the first one (matcher, recorded bytes, level values)
@@ -655,7 +768,16 @@ def gen_cases(ctx, K, n_target):
             data = body
             if pos:
                 data = bytes(bytearray([rng.getrandbits(8)])) + body
-            if rng.random() < 0.15:
+            if rng.random() < 0.4:
+                from collections import OrderedDict
+                mv = rng.choice([1, 2, 3, 3])
+                ent["major_version"] = mv
+                if rng.random() < 0.5:
+                    # a level with real constraints on the transform parameters / matrix values
+                    ent["_level_constrained_values"] = OrderedDict([("level", rng.choice([1, 2, 3, 4, 5, 6, 7, 64, 65, 66]))])
+                tp = synth_transform_parameters(rng, mv, pc == 0xE8)
+                add(1, ent, body[:4] + tp, 0, "picture-synth")
+            elif rng.random() < 0.15:
                 data = bytes(bytearray(rng.getrandbits(8) for _ in range(rng.randrange(4, 30))))
                 add(1, ent, data, 0, "picture-random")
             else:
@@ -732,20 +854,19 @@ def gen_cases(ctx, K, n_target):
             if rng.random() < 0.2:
                 ent["next_parse_offset"] = rng.choice([0, ent["next_parse_offset"] + 1])
         pi = units[i][1]
-        # the reader is positioned `offset` bytes into the stream: prefix that many bytes
+        # the reader is positioned `offset` bytes into the stream; only differences of offsets matter, so the
+        # previous parse_info is moved to a small offset and only the previous data unit precedes this one
+        if i > 0:
+            base = ent["_last_parse_info_offset"] - rng.choice([0, 0, 1, 7])
+            offset -= base
+            ent["_last_parse_info_offset"] -= base
+        if offset > 600:
+            continue
         lead = bytes(bytearray(rng.getrandbits(8) for _ in range(offset)))
         pos = 8 * offset
-        extra = 0
-        if rng.random() < 0.2:
-            extra = rng.choice([1, 5])       # not byte aligned: parse_info aligns first
-            lead = lead + b"\x00"
-            pos = 8 * offset + extra
-            if i > 0:
-                ent["_last_parse_info_offset"] += 0
+        if rng.random() < 0.2 and offset > 0:
+            pos -= rng.choice([1, 5])       # not byte aligned: parse_info aligns first
         data = lead + pi + bytes(bytearray(rng.getrandbits(8) for _ in range(2)))
-        if i > 0 and extra:
-            # the true offset moved by one byte
-            ent["_last_parse_info_offset"] = ent["_last_parse_info_offset"]
         add(3, ent, data, pos, "parse_info:valid")
         for _ in range(4):
             b = bytearray(pi)
@@ -844,29 +965,39 @@ def run_headers(ctx, orig_level_constraints=None):
     permissive = list(LTlive)
     tdefs = coq_tables()
     tables_ok_check(ctx, tdefs)
-    n_total = ctx.pick(1500, 12000)
+    n_total = ctx.pick(900, 12000)
     outcomes = {}
     batches = [("real-levels", orig_level_constraints, int(n_total * 0.7)), ("permissive-levels", permissive, int(n_total * 0.3))]
     if orig_level_constraints is None:
         batches = [("live-levels", permissive, n_total)]
     first_payloads = []
+    all_cases, defs = [], tdefs
     try:
         with guards():
-            for tag, table, n in batches:
+            for bi, (tag, table, n) in enumerate(batches):
                 LTlive[:] = list(table)
-                defs = tdefs + "\n" + coq_level_table(LTlive, K)
+                defs += "\n" + coq_level_table(LTlive, K).replace("Definition LT ", "Definition LT%d " % bi)
                 cases = gen_cases(ctx, K, n)
                 if tag != "permissive-levels":
                     first_payloads = [bytes(bytearray(c["data"])) for c in cases if c["label"] == "seqhdr-first:valid"]
                     cases += unreachable_cases(ctx, K, first_payloads)
-                bad = ctx.coq_check_cases("c02_headers_" + tag.replace("-", "_"), IMPORTS, "check TT LT",
-                                          [coq_case(c) for c in cases], ty=CASE_TY, shard=150, defs=defs, timeout=900)
-                judge(ctx, cases, bad, tag)
                 for c in cases:
-                    k = "%s:%s" % (KIND_NAMES[c["kind"]], c["obs"][0])
-                    outcomes[k] = outcomes.get(k, 0) + 1
-                for c in cases[:2]:
-                    ctx.sample({"kind": KIND_NAMES[c["kind"]], "label": c["label"], "bytes": len(c["data"]), "observed": c["obs"][0]})
+                    c["batch"], c["tag"] = bi, tag
+                all_cases += cases
+        # one coqc run over both batches (the level table is selected per case), small shards for parallelism
+        sel = "LT0" if len(batches) == 1 else "(if fst x =? 0 then LT0 else LT1)"
+        bad = ctx.coq_check_cases("c02_headers", IMPORTS, "fun x : Z * %s => check TT %s (snd x)" % (CASE_TY, sel),
+                                  ["(%d, %s)" % (c["batch"], coq_case(c)) for c in all_cases],
+                                  ty="Z * %s" % CASE_TY, shard=ctx.pick(110, 200), defs=defs, timeout=900)
+        for tag in sorted(set(c["tag"] for c in all_cases)):
+            idx = [i for i, c in enumerate(all_cases) if c["tag"] == tag]
+            sub_bad = [k for k, i in enumerate(idx) if bad is not None and i in set(bad)]
+            judge(ctx, [all_cases[i] for i in idx], sub_bad, tag)
+        for c in all_cases:
+            k = "%s:%s" % (KIND_NAMES[c["kind"]], c["obs"][0])
+            outcomes[k] = outcomes.get(k, 0) + 1
+        for c in all_cases[:2] + all_cases[-2:]:
+            ctx.sample({"kind": KIND_NAMES[c["kind"]], "label": c["label"], "bytes": len(c["data"]), "observed": c["obs"][0]})
     finally:
         LTlive[:] = permissive
     ctx.extra["headers_outcomes"] = outcomes
